@@ -7,6 +7,16 @@ Op lines (see lean/Driver/WbD.lean):
   wb.static [<xkey>]             M1 ; M2 ; m ; M3 ; rbits ; SRLR ; ERLR in full (asked after generating the tables of <key>)
   wb.fx <bits>                   the private __FX (parity of v & M2[b] for the 96 rows)
   wb.round <xkey> <r> <bits>     one round of the network: 12 T-box substitutions then __FX
+  wb.seq <xkey1> <xkey2> <xblocks>   several generations in ONE process step (a forked child of the worker, so that the
+  wb.seqg <xkey1> <xkey2> <xblocks>  experiment cannot leak into other lines): network 1 and a second "bystander" network
+                                 for key1; then EVERY mutable table object reachable from network 1, from the values the
+                                 generators returned for it and from one more call of every generator is overwritten in
+                                 place (wb.seqg: also every mutable object reachable from the module namespace of
+                                 crysp.wb, its functions' default arguments, closures and attributes); then network 2 for
+                                 key2.  Result sections: pre= digests of the key-independent tables before | enc1= network 1
+                                 before | encB= the bystander afterwards | post= the key-independent tables generated
+                                 afterwards, in full | kt= T-box digests of network 2 | alias= NONE or ALIASED:<where>
+                                 (a mutable table object shared by two networks / two calls) | enc2= network 2
 
 run_impl executes the line on the real crysp.wb (tables cached per key inside the worker).  check_impl is the
 property's own predicate, written without crysp.wb and without the Lean model:
@@ -18,8 +28,15 @@ property's own predicate, written without crysp.wb and without the Lean model:
   * the key-independent tables are the same whatever key was processed before, have the right shapes, and satisfy the
     *layout equations* of the network stated on symbolic bit names: M1 = encode o IP, M3 = IPinv o swap o decode, and
     every row of M2 gathers exactly {R_j} or {L_j, S_P(j)} from the post-T-box state;
-  * one round maps encode(L,R) to encode(R, L xor f(R,k_r)) (reference f and key schedule).
+  * one round maps encode(L,R) to encode(R, L xor f(R,k_r)) (reference f and key schedule);
+  * every T-box / S-table is the one computed here from the FIPS S-boxes and the reference key schedule (digests);
+  * generation has no history (wb.seq): after the in-place modification of network 1 the freshly generated key-independent
+    tables are the ones generated before, still satisfy the layout equations, network 2 has the reference T-boxes of key2
+    and computes reference DES under key2, the untouched bystander network still computes DES under key1, and no mutable
+    table object is shared (the unmodified generators build every list afresh: tM1/tM2/tM3 of two networks are distinct
+    objects, so identity itself is flagged).
 """
+import os, re, random, signal
 from props.common import *
 from props.parts import desref as R
 
@@ -27,7 +44,8 @@ ID = 'C18'
 LEAN_PROOFS = ['Proofs.C18']
 GEN_ITEMS = ['Wb', 'Des']
 RULE = ('op lines; one wb.encs line = one generated table network (one key) evaluated on a batch of blocks (64 single-bit blocks, '
-        'zero, all-ones / seeded random blocks); distinct lines; non-trivial = the implementation returned a value')
+        'zero, all-ones / seeded random blocks); one wb.seq line = three generated networks (key1, key1 bystander, key2) in one '
+        'process with an in-place modification of the first in between; distinct lines; non-trivial = the implementation returned a value')
 TRUSTED = ['Model.Py / Model.Bits / Model.Poly model CPython ints, lists and the Bits/Poly plumbing (validated by the C07/C08/C16 streams)',
            'CPython iterates a set of small non-negative ints in ascending order (getrbits_T_in: list(sr)); modelled as an ascending list, '
            'tied by rbits_eq_gen to what the running interpreter returns',
@@ -40,9 +58,16 @@ LEVEL_TEXT = ('Lean 4 theorems: wb_enc_eq_des — for every 8-byte key and every
               'total byte map, bypass tables are the identity, T-box entries are S_n(chunk xor k_{r,n}) || bypass bits; the key-independent '
               'tables of the model are exactly what the real generators return (kernel evaluation against values re-extracted on every run) '
               'and satisfy the layout identities M1 = layout o IP, M3 o layout = IPinv o swap, M2 rows gather R_j or L_j xor S_P(j); '
-              'correspondence stream per generated network with an independent reference DES and symbolic layout equations.')
+              'gen_seq_key_only / gen_seq_second_is_des — generating for K1, modifying that network arbitrarily, then generating for K2 '
+              'yields exactly the network of K2, with the extracted key-independent tables, computing DES under K2; '
+              'correspondence stream per generated network with an independent reference DES, reference T-boxes and symbolic layout '
+              'equations, including multi-network sequences in one process with in-place modification of an earlier network.')
 LEVEL_NOTE = ('Trusted: Lean kernel, translator and correspondence harness (the tie model <-> code), Model.Bits/Model.Poly/Model.Py as models of '
-              'the plumbing. The theorem is model-to-model (Model.Wb = Model.Des); Model.Des = FIPS 46-3 is property C02.')
+              'the plumbing. The theorem is model-to-model (Model.Wb = Model.Des); Model.Des = FIPS 46-3 is property C02. '
+              'In the Lean model a table is a value and generation is a pure function of the key (gen_seq_key_only is immediate there): '
+              'object identity / aliasing of the Python lists (a cache returning the same mutable list to every caller, tables shared by two '
+              'live WhiteDES instances, state kept between two generations) is NOT covered by any theorem; it is decided by the '
+              'correspondence stream only (wb.seq / wb.seqg lines: identity of the objects and modify-then-generate on the real code).')
 TECHNIQUE = 'Lean 4 proof (kernel evaluation of closed table generators, structural proofs for all keys) + correspondence check'
 LINE_TIMEOUT = 120
 
@@ -93,6 +118,220 @@ def fmt_table(t): return '/'.join(il(r) for r in t)
 def chunks8(b): return [b[i:i + 8] for i in range(0, len(b), 8)]
 
 
+# ---------------------------------------------------------------------------------------------
+# several generations in one process (wb.seq / wb.seqg)
+def _flat(t): return [x for e in t for x in [len(e)] + list(e)]
+
+
+def _mrows(m): return [list(e) if isinstance(e, tuple) else [e] for e in m]
+
+
+def _static_full(W):
+    """everything the key-independent generators return, by fresh calls: (objects, wb.static text, digest text)"""
+    m1 = W.table_M1(); mat, m = W.table_M2(); m3 = W.table_M3()
+    rb = W.getrbits_T_in(); sr = W.SRLRformat(); er = W.ERLRformat()
+    objs = {'table_M1()': m1, 'table_M2()[0]': mat, 'table_M2()[1]': m, 'table_M3()': m3, 'getrbits_T_in()': rb,
+            'SRLRformat()': sr, 'ERLRformat()': er}
+    return objs
+
+
+def _static_text(o):
+    mm = _mrows(o['table_M2()[1]'])
+    return ';'.join([il(o['table_M1()']), il(o['table_M2()[0]']), fmt_table(mm), il(o['table_M3()']), il(o['getrbits_T_in()']),
+                     fmt_table([p.ival for p in o['SRLRformat()']]), fmt_table([p.ival for p in o['ERLRformat()']])])
+
+
+def static_digests_of_text(txt):
+    """the pre= digests recomputed from a wb.static text"""
+    p = txt.split(';')
+    tab = lambda x: [unil(r) for r in x.split('/')]
+    return ','.join([digest(unil(p[0])), digest(unil(p[1])), digest(_flat(tab(p[2]))), digest(unil(p[3])), digest(unil(p[4])),
+                     digest(_flat(tab(p[5]))), digest(_flat(tab(p[6])))])
+
+
+_MUTABLE = (list, dict, set, bytearray)
+
+
+def _is_crysp_obj(o):
+    return (type(o).__module__ or '').startswith('crysp') and not isinstance(o, type)
+
+
+def _attrs(o):
+    """instance attributes of an object of the library: __dict__ and __slots__ (Bits)"""
+    d = dict(getattr(o, '__dict__', {}) or {})
+    for c in type(o).__mro__:
+        sl = c.__dict__.get('__slots__', ())
+        for n in ([sl] if isinstance(sl, str) else sl):
+            m = '_%s%s' % (c.__name__.lstrip('_'), n) if n.startswith('__') and not n.endswith('__') else n
+            try: d[m] = getattr(o, m)
+            except AttributeError: pass
+    return d
+
+
+def _walk(o, seen, visit, path):
+    """depth-first over containers / crysp objects reachable from o; visit(obj, path) on every mutable one"""
+    if id(o) in seen: return
+    if isinstance(o, (list, tuple)):
+        seen[id(o)] = o
+        if isinstance(o, list): visit(o, path)
+        for i, e in enumerate(o):
+            if not isinstance(e, (int, str, bytes, float, type(None))): _walk(e, seen, visit, '%s[%d]' % (path, i))
+    elif isinstance(o, dict):
+        seen[id(o)] = o; visit(o, path)
+        for k, e in list(o.items()):
+            if not isinstance(e, (int, str, bytes, float, type(None))): _walk(e, seen, visit, '%s[%r]' % (path, k))
+    elif isinstance(o, (set, frozenset)):
+        seen[id(o)] = o
+        if isinstance(o, set): visit(o, path)
+    elif isinstance(o, bytearray):
+        seen[id(o)] = o; visit(o, path)
+    elif _is_crysp_obj(o):
+        seen[id(o)] = o; visit(o, path)
+        for k, e in list(_attrs(o).items()):
+            if not isinstance(e, (int, str, bytes, float, type(None))): _walk(e, seen, visit, '%s.%s' % (path, k))
+
+
+def _scribble_visit(count):
+    def visit(o, path):
+        if isinstance(o, list):
+            for i, e in enumerate(o):
+                if isinstance(e, int) and not isinstance(e, bool): o[i] = e ^ 1; count[0] += 1
+        elif isinstance(o, bytearray):
+            for i in range(len(o)): o[i] ^= 1; count[0] += 1
+        elif isinstance(o, set):
+            ints = [e for e in o if isinstance(e, int) and not isinstance(e, bool)]
+            for e in ints: o.discard(e)
+            for e in ints: o.add(e + 1000); count[0] += 1
+        elif isinstance(o, dict):
+            pass            # values are visited; the mapping of a cache is not rebound
+        elif _is_crysp_obj(o):      # a Bits object: its value; the list attributes of a Poly are visited on their own
+            v = _attrs(o).get('ival')
+            if isinstance(v, int) and not isinstance(v, bool): o.ival = v ^ 1; count[0] += 1
+    return visit
+
+
+def _module_roots(W):
+    """mutable state the module itself could keep between two generations: globals that are containers, and for every
+    function / class defined in crysp.wb its default arguments, closure cells, attributes (`f.cache = {}`) and, for
+    classes, class attributes"""
+    import types
+    roots = []
+    def fn_roots(f, name):
+        roots.append((name + '.__defaults__', tuple(f.__defaults__ or ())))
+        if f.__kwdefaults__: roots.append((name + '.__kwdefaults__', f.__kwdefaults__))
+        for i, c in enumerate(f.__closure__ or ()):
+            try: roots.append(('%s.__closure__[%d]' % (name, i), c.cell_contents))
+            except ValueError: pass
+        roots.append((name + '.__dict__', vars(f)))
+    for k, v in list(vars(W).items()):
+        if k.startswith('__'): continue
+        if isinstance(v, _MUTABLE + (tuple,)): roots.append((k, v))
+        elif getattr(v, '__module__', None) == W.__name__:
+            f = v
+            for _ in range(8):             # decorated functions
+                if isinstance(f, types.FunctionType): fn_roots(f, k); break
+                w = getattr(f, '__wrapped__', None)
+                if w is None: break
+                f = w
+            if isinstance(v, type):
+                for a, b in list(vars(v).items()):
+                    if isinstance(b, _MUTABLE): roots.append(('%s.%s' % (k, a), b))
+                    elif isinstance(b, types.FunctionType): fn_roots(b, '%s.%s' % (k, a))
+    return roots
+
+
+def _mutable_ids(roots):
+    """id -> path of every mutable object reachable from the (name, object) roots"""
+    out, seen = {}, {}
+    for name, o in roots:
+        _walk(o, seen, lambda x, path: out.setdefault(id(x), path), name)
+    return out
+
+
+def _seq(k1, k2, blocks, deep):
+    from crysp import wb as W
+    from crysp.bits import Bits
+    ms = chunks8(blocks)
+    def build(k):
+        bK = Bits(k, 64)
+        tabs = [W.table_rKT(r, bK) for r in range(16)]
+        st = _static_full(W)
+        w = W.WhiteDES([t[1] for t in tabs], st['table_M1()'], st['table_M2()[0]'], st['table_M3()'])
+        return w, tabs, st
+    def encs(w): return ','.join(guarded(lambda m=m: hx(w.enc(m))) for m in ms)
+    def roots_of(tag, n):
+        w, tabs, st = n
+        # (tuples as roots: the harness' own containers are neither overwritten nor compared)
+        return ([(tag + '.tM1', w.tM1), (tag + '.tM2', w.tM2), (tag + '.tM3', w.tM3), (tag + '.KT', tuple(w.KT)),
+                 (tag + ':table_rKT', tuple(tabs))] + [('%s:%s' % (tag, a), b) for a, b in st.items()])
+    sec = {}
+    # network 1 and a bystander for the same key, both alive
+    n1 = guarded(lambda: build(k1))
+    sec['pre'] = 'ERR' if n1 == 'ERR' else guarded(lambda: static_digests_of_text(_static_text(n1[2])))
+    sec['enc1'] = 'ERR' if n1 == 'ERR' else encs(n1[0])
+    nB = guarded(lambda: build(k1))
+    # the experiment: overwrite in place every table object of network 1, and of one more call of every generator
+    count = [0]
+    visit = _scribble_visit(count)
+    seen = {}
+    targets = []
+    if n1 != 'ERR': targets += roots_of('net1', n1)
+    again = guarded(lambda: _static_full(W))
+    if again != 'ERR': targets += [('call:' + a, b) for a, b in again.items()]
+    again_kt = guarded(lambda: tuple([W.table_rKT(r, Bits(k1, 64)) for r in (0, 15)] + [W.table_rKS(r, Bits(k1, 64)) for r in (0, 15)]))
+    if again_kt != 'ERR': targets.append(('call:table_rKT/rKS', again_kt))
+    if deep: targets += _module_roots(W)
+    # (the bystander is not a target: it is overwritten only if the code under test made its tables the same objects)
+    for name, o in targets: _walk(o, seen, visit, name)
+    sec['encB'] = 'ERR' if nB == 'ERR' else encs(nB[0])
+    # network 2, generated afterwards
+    n2 = guarded(lambda: build(k2))
+    if n2 == 'ERR':
+        sec['post'] = sec['kt'] = sec['enc2'] = 'ERR'
+    else:
+        sec['post'] = guarded(lambda: _static_text(n2[2]))
+        sec['kt'] = guarded(lambda: ';'.join(','.join(digest(x) for x in rkt) for _, rkt in n2[1]))
+        sec['enc2'] = encs(n2[0])
+    # identity of mutable table objects between the three live networks
+    al = []
+    nets = [(t, n) for t, n in (('net1', n1), ('netB', nB), ('net2', n2)) if n != 'ERR']
+    for i in range(len(nets)):
+        for j in range(i + 1, len(nets)):
+            a = _mutable_ids(roots_of(nets[i][0], nets[i][1])); b = _mutable_ids(roots_of(nets[j][0], nets[j][1]))
+            for x in a:
+                if x in b: al.append('%s=%s' % (a[x], b[x]))
+    sec['alias'] = 'NONE' if not al else 'ALIASED:' + re.sub(r'[^A-Za-z0-9_.:=+()\[\]]', '_', '+'.join(sorted(set(al))[:6]))
+    return '|'.join('%s=%s' % (k, sec[k]) for k in ('pre', 'enc1', 'encB', 'post', 'kt', 'alias', 'enc2'))
+
+
+def _isolated(f):
+    """run f() in a forked child and return its text: whatever the experiment overwrites dies with the child"""
+    r, w = os.pipe()
+    pid = os.fork()
+    if pid == 0:
+        code = 0
+        try:
+            os.close(r)
+            try: out = f()
+            except BaseException as e: out = 'HARNESS:seq:%s:%s' % (type(e).__name__, str(e)[:200])
+            with os.fdopen(w, 'w') as fh: fh.write(out)
+        except BaseException:
+            code = 1
+        finally:
+            os._exit(code)
+    os.close(w)
+    try:
+        try:
+            with os.fdopen(r) as fh: data = fh.read()
+        except BaseException:
+            try: os.kill(pid, signal.SIGKILL)
+            except OSError: pass
+            raise
+    finally:
+        os.waitpid(pid, 0)
+    return data if data else 'ERR'
+
+
 def run_impl(line):
     from crysp import wb as W
     from crysp.bits import Bits
@@ -133,6 +372,11 @@ def run_impl(line):
                 tt = nt
             return fb(w._WhiteDES__FX(blk))
         raise RuntimeError('unknown op ' + op)
+    if op in ('wb.seq', 'wb.seqg'):
+        k1, k2, blocks = unhx(a[0]), unhx(a[1]), unhx(a[2])
+        res = _isolated(lambda: _seq(k1, k2, blocks, op == 'wb.seqg'))
+        if res.startswith('HARNESS:'): raise RuntimeError(res)
+        return res
     return guarded(go)
 
 
@@ -210,27 +454,113 @@ def check_static(res):
     return None
 
 
+_REFT = {}
+
+
+def ref_tables(k):
+    """the table network of key k computed from the standard alone (desref key schedule and S-boxes), as digests:
+    16 x ([12 T-box digests], [8 S-table digests]).  Bit j of a table index is the (j+1)-th bit of the 6-bit S-box input
+    group (the layout `encode` puts E(R) in, first bit at index 0); an S-table entry is the S-box output with its first
+    (most significant) bit at index 0; a T-box entry is that nibble followed by index bits 0, 5, 6, 7 (`post_tbox`)."""
+    if k in _REFT: return _REFT[k]
+    if len(_REFT) > 32: _REFT.clear()
+    rev4 = lambda x: int('{:04b}'.format(x)[::-1], 2)
+    out = []
+    for kr in R.subkeys(int.from_bytes(k, 'big')):
+        ks, kt = [], []
+        for n in range(8):
+            kc = (kr >> (42 - 6 * n)) & 63
+            st = []
+            for c in range(64):
+                b = [((c >> j) & 1) ^ ((kc >> (5 - j)) & 1) for j in range(6)]       # b[0] = first bit of the group
+                row = 2 * b[0] + b[5]; col = 8 * b[1] + 4 * b[2] + 2 * b[3] + b[4]
+                st.append(rev4(R.SB[n][16 * row + col]))
+            ks.append(st)
+            kt.append([st[v & 63] | ((v & 1) << 4) | (((v >> 5) & 7) << 5) for v in range(256)])
+        kt += [list(range(256))] * 4
+        out.append(([digest(t) for t in kt], [digest(t) for t in ks]))
+    _REFT[k] = out
+    return out
+
+
+def check_encs(k, ms, rs, bad, what=''):
+    """the predicate of wb.enc / wb.encs: results rs of a network of key k on the blocks ms"""
+    from crysp.des import DES
+    kn = bytes(b & 0xfe for b in k)
+    if len(rs) != len(ms): return bad('%s%d results for %d blocks' % (what, len(rs), len(ms)))
+    for m, r in zip(ms, rs):
+        if len(m) != 8:
+            if r != 'ERR': return bad('%sblock of %d bytes accepted' % (what, len(m)))
+            continue
+        exp = hx(R.des(k, m))
+        if r != exp: return bad('%sblock %s: expected %s (reference DES), got %s' % (what, hx(m), exp, r))
+        if hx(R.des(kn, m)) != r: return bad('%sblock %s: differs from DES under the parity-normalised key' % (what, hx(m)))
+        own = guarded(lambda: hx(DES(k).enc(m)))
+        if own != r: return bad('%sblock %s: the library DES gives %s, the white-box %s' % (what, hx(m), own, r))
+    return None
+
+
+def static0():
+    if not _STATIC0:
+        from crysp import wb as W
+        m1 = W.table_M1(); mat, m = W.table_M2(); m3 = W.table_M3()
+        _STATIC0.append((il(m1), il(mat), il(m3)))
+    return _STATIC0[0]
+
+
+def check_seq(line, res, bad):
+    t = line.split(); k1, k2, blocks = unhx(t[1]), unhx(t[2]), unhx(t[3])
+    sec = {}
+    for part in res.split('|'):
+        name, _, val = part.partition('=')
+        sec[name] = val
+    if sorted(sec) != sorted(['pre', 'enc1', 'encB', 'post', 'kt', 'alias', 'enc2']): return bad('malformed result')
+    for name in ('pre', 'post', 'kt'):
+        if sec[name] == 'ERR': return bad('%s: table generation raised' % name)
+    ms = chunks8(blocks)
+    # object identity first: it names the cause
+    if sec['alias'] != 'NONE':
+        return bad('%s — two table networks / two calls of a generator share a mutable table object' % sec['alias'])
+    # the key-independent tables generated AFTER the modification of network 1
+    try:
+        post_d = static_digests_of_text(sec['post'])
+    except Exception:
+        return bad('malformed key-independent tables after the modification')
+    if post_d != sec['pre']:
+        names = ['M1', 'M2', 'm', 'M3', 'rbits', 'SRLR', 'ERLR']
+        diff = [n for n, a, b in zip(names, sec['pre'].split(','), post_d.split(',')) if a != b]
+        return bad('key-independent tables %s generated after an earlier network was modified in place differ from those generated before'
+                   % ','.join(diff))
+    p = sec['post'].split(';')
+    if (p[0], p[1], p[3]) != static0(): return bad('key-independent tables differ from the first computation')
+    e = check_static(sec['post'])
+    if e: return bad('after the modification: ' + e)
+    # network 2 against the reference
+    if len(k2) == 8:
+        rounds = sec['kt'].split(';')
+        want = ref_tables(k2)
+        if len(rounds) != 16: return bad('%d rounds in network 2' % len(rounds))
+        for r, rd in enumerate(rounds):
+            if rd.split(',') != want[r][0]: return bad('network 2, round %d: T-boxes are not the reference T-boxes of key2' % r)
+    for k, name in ((k1, 'enc1'), (k1, 'encB'), (k2, 'enc2')):
+        if len(k) != 8: continue
+        what = {'enc1': 'network 1 before the modification, ', 'encB': 'untouched second network of key1 after the modification of the first, ',
+                'enc2': 'network 2 generated after the modification of network 1, '}[name]
+        e = check_encs(k, ms, sec[name].split(',') if ms else [], bad, what)
+        if e: return e
+    return None
+
+
 def check_impl(line, res):
     t = line.split(); op, a = t[0], t[1:]
     bad = lambda why: '%s: %s' % (op, why)
     if op in ('wb.enc', 'wb.encs'):
         k = unhx(a[0])
         if len(k) != 8: return None
-        from crysp.des import DES
-        kn = bytes(b & 0xfe for b in k)
         ms = [unhx(a[1])] if op == 'wb.enc' else chunks8(unhx(a[1]))
-        rs = res.split(',') if ms else []
-        if len(rs) != len(ms): return bad('%d results for %d blocks' % (len(rs), len(ms)))
-        for m, r in zip(ms, rs):
-            if len(m) != 8:
-                if r != 'ERR': return bad('block of %d bytes accepted' % len(m))
-                continue
-            exp = hx(R.des(k, m))
-            if r != exp: return bad('block %s: expected %s (reference DES), got %s' % (hx(m), exp, r))
-            if hx(R.des(kn, m)) != r: return bad('block %s: differs from DES under the parity-normalised key' % hx(m))
-            own = guarded(lambda: hx(DES(k).enc(m)))
-            if own != r: return bad('block %s: the library DES gives %s, the white-box %s' % (hx(m), own, r))
-        return None
+        return check_encs(k, ms, res.split(',') if ms else [], bad)
+    if op in ('wb.seq', 'wb.seqg'):
+        return check_seq(line, res, bad)
     if op == 'wb.tables':
         if res == 'ERR': return bad('table generation raised')
         rounds = res.split(';')
@@ -248,15 +578,15 @@ def check_impl(line, res):
             for n, d in enumerate(ks):
                 f = d.split(':')
                 if len(f) != 3 or int(f[0]) != 64 or int(f[1]) > 15: return bad('round %d S-table %d: %s' % (r, n, d))
+            if len(unhx(a[0])) == 8:
+                want = ref_tables(unhx(a[0]))[r]
+                if kt != want[0]: return bad('round %d: T-boxes are not S_n(chunk xor k_r,n) || bypass bits for the reference round key' % r)
+                if ks != want[1]: return bad('round %d: S-tables are not the S-boxes keyed with the reference round key' % r)
         return None
     if op == 'wb.static':
         if res == 'ERR': return bad('static table generation raised')
-        if not _STATIC0:
-            from crysp import wb as W
-            m1 = W.table_M1(); mat, m = W.table_M2(); m3 = W.table_M3()
-            _STATIC0.append((il(m1), il(mat), il(m3)))
         p = res.split(';')
-        if (p[0], p[1], p[3]) != _STATIC0[0]: return bad('key-independent tables differ from the first computation')
+        if (p[0], p[1], p[3]) != static0(): return bad('key-independent tables differ from the first computation')
         e = check_static(res)
         return bad(e) if e else None
     if op == 'wb.round':
@@ -311,10 +641,46 @@ def round_cases(k, rng, nrand, tag):
         yield 'wb.round %s %d %s' % (hx(k), r, bt(96, rng.getrandbits(96))), 'round.anystate'
 
 
+def flip(k, i):
+    """key k with bit i (0 = most significant bit of byte 0, i % 8 == 7: a parity bit) complemented"""
+    return (int.from_bytes(k, 'big') ^ (1 << (63 - i))).to_bytes(8, 'big')
+
+
+def seq_cases(rng, q):
+    """several generations in one process: (key1, key2) pairs chosen so that a memo keyed on less than the key, or on
+    nothing at all, shows: equal keys, parity variants, keys that differ in exactly one bit (every byte's most significant
+    bit, a parity bit, an inner bit), the keys of tests/test_des.py, weak keys, random pairs"""
+    B = lambda n: hx(rb(rng, 8 * n))
+    kt = bytes.fromhex('0123456789abcdef')
+    yield 'wb.seq %s %s %s' % (hx(kt), hx(bytes.fromhex('81a3c5e7092b4d6f')), hx(b'Now is t' + bytes.fromhex('8000000000000001'))), 'seq.testkey'
+    yield 'wb.seqg %s %s %s' % (hx(kt), hx(bytes.fromhex('8123456789abcdef')), hx(b'Now is t')), 'seq.testkey'
+    k = rb(rng, 8)
+    yield 'wb.seq %s %s %s' % (hx(k), hx(k), B(2)), 'seq.samekey'
+    yield 'wb.seqg %s %s %s' % (hx(k), hx(bytes(b ^ 1 for b in k)), B(2)), 'seq.parityvariant'
+    msb = list(range(0, 64, 8))
+    for i in (msb if not q else rng.sample(msb, 3)):
+        k = rb(rng, 8)
+        yield 'wb.seq %s %s %s' % (hx(k), hx(flip(k, i)), B(2)), 'seq.onebit.msb'
+    k = rb(rng, 8)
+    yield 'wb.seq %s %s %s' % (hx(k), hx(bytes(b ^ 0x80 for b in k)), B(2)), 'seq.allmsb'
+    yield 'wb.seq %s %s %s' % (hx(k), hx(flip(k, 8 * rng.randrange(8) + 7)), B(2)), 'seq.onebit.parity'
+    inner = [i for i in range(64) if i % 8 not in (0, 7)]
+    for i in rng.sample(inner, 2 if q else 12):
+        k = rb(rng, 8)
+        yield '%s %s %s %s' % (rng.choice(['wb.seq', 'wb.seqg']), hx(k), hx(flip(k, i)), B(2)), 'seq.onebit.inner'
+    yield 'wb.seq %s %s %s' % (hx(R.WEAK[0]), hx(R.WEAK[1]), B(2)), 'seq.weak'
+    yield 'wb.seqg %s %s %s' % (hx(bytes(8)), hx(b'\x80' + bytes(7)), B(2)), 'seq.zero'
+    for _ in range(3 if q else 24):
+        yield '%s %s %s %s' % (rng.choice(['wb.seq', 'wb.seqg']), hx(rb(rng, 8)), hx(rb(rng, 8)), B(3 if q else 8)), 'seq.random'
+    yield 'wb.seq %s %s %s' % (hx(rb(rng, 8)), hx(rb(rng, 8)), hx(rb(rng, 8 + 5))), 'seq.badblocksize'
+
+
 def cases(tier, rng):
     if tier == 'search':
         while True:
             k = rb(rng, 8)
+            k2 = rng.choice([rb(rng, 8), flip(k, rng.randrange(64)), bytes(b ^ 0x80 for b in k), k])
+            yield '%s %s %s %s' % (rng.choice(['wb.seq', 'wb.seqg']), hx(k), hx(k2), hx(rb(rng, 16))), 'search'
             yield 'wb.encs %s %s' % (hx(k), hx(rb(rng, 64))), 'search'
             yield 'wb.tables %s' % hx(k), 'search'
             yield 'wb.round %s %d %s' % (hx(k), rng.randrange(16), state_of(rng.getrandbits(32), rng.getrandbits(32))), 'search'
@@ -324,6 +690,12 @@ def cases(tier, rng):
     yield 'wb.static', 'static'
     yield 'wb.enc x0123456789abcdef x4e6f772069732074', 'kat'                  # tests/test_des.py
     for k, p, c in R.KAT: yield 'wb.enc x%s x%s' % (k.lower(), p.lower()), 'kat'
+    # several generations in one process, an earlier network modified in place.  First in the stream: each of these lines is
+    # self-contained (its own forked process), so when the code keeps state between generations the reported failing input
+    # replays in a fresh process, which a single-network line that failed because of its worker's history would not.
+    # (a copy of the rng: the rest of the stream does not depend on how many values these lines draw)
+    rng2 = random.Random(); rng2.setstate(rng.getstate())
+    yield from seq_cases(rng2, q)
     # block sizes the cipher does not define
     k0 = rb(rng, 8)
     for n in (0, 1, 7, 9, 16, 24): yield 'wb.enc %s %s' % (hx(k0), hx(rb(rng, n))), 'badblocksize'
@@ -362,6 +734,13 @@ def cases(tier, rng):
 
 def shrink(line):
     t = line.split()
+    if t[0] in ('wb.seq', 'wb.seqg'):
+        b = unhx(t[3])
+        n = (len(b) + 7) // 8
+        if n > 1:
+            yield ' '.join(t[:3] + [hx(b[:8 * (n // 2)])])
+            yield ' '.join(t[:3] + [hx(b[8 * (n // 2):])])
+        if t[0] == 'wb.seqg': yield ' '.join(['wb.seq'] + t[1:])
     if t[0] == 'wb.encs':
         b = unhx(t[2])
         n = len(b) // 8
